@@ -52,6 +52,9 @@ func init() {
 		{ID: "E1.keyset.remote.decoder-keeps-every-key", Fn: "client/rp.(*jsonWebKeySet).UnmarshalJSON", P: []string{"k", "data"}, Kind: "backedge", Pat: "backedge($raw.Keys)",
 			Why: "an iteration ends either with a key that could not be parsed or with that key appended to the set",
 			Req: []string{"fail($w.UnmarshalJSON(_)) || called(append($k.Keys, *$w)) || called(append($k.Keys, $w))"}},
+		{ID: "E1.keyset.remote.decoder-fails-only-on-malformed-document", Fn: "client/rp.(*jsonWebKeySet).UnmarshalJSON", P: []string{"k", "data"}, Kind: "ret fail",
+			Why: "an entry that cannot be parsed (unknown kty) is skipped; only a document that is not a JWKS at all fails the download",
+			Req: []string{"fail(json.Unmarshal($data, &$raw)) || fail(json.Unmarshal($data, $raw))"}},
 		// key sets: the candidates handed to key selection are the last successfully downloaded set (cached path) resp. the
 		// set the refresh returned (remote path) - never another container (a withdrawn key must stop being trusted)
 		{ID: "E8.keyset.remote.cached-candidates", Fn: "client/rp.(*remoteKeySet).verifySignatureCached", P: []string{"r", "jws", "keyID", "alg"}, Kind: "call", Pat: "oidc.FindMatchingKey(_, _, _, $keys)", Max: 1,
@@ -93,6 +96,9 @@ func init() {
 	for _, o := range obs {
 		if strings.HasPrefix(o.ID, "E1.keyset.op") {
 			sharedObs["C06"] = append(sharedObs["C06"], o) // "passes the library's own verifiers": the OP's key set selects keys like every verifier (FindMatchingKey)
+		}
+		if strings.HasPrefix(o.ID, "E1.keyset.remote.decoder") {
+			sharedObs["C13"] = append(sharedObs["C13"], o) // "a token signed by a served key verifies", "unknown kty is skipped"
 		}
 		if strings.HasPrefix(o.ID, "E1.parse.") {
 			sharedObs["C01"] = append(sharedObs["C01"], o)
